@@ -23,15 +23,29 @@ def check(tier, seed, t0):
     for c, o in zip(cases, outs):
         for m in o["mismatches"]:
             div.append(m)
+    # second part: evaluate_inline_expressions
+    ri = vlib.run_tlc("x04i_mc", "MC_X04I", CFG.replace("INVARIANT DeclaredOnce\nINVARIANT DeclaredAreBound\n", "INVARIANT Independent\n"), workers=4, timeout=1500)
+    if not ri.ok:
+        raise vlib.ToolError("MC_X04I: a law fails on the specification itself:\n" + ri.violation)
+    icases = ri.lines.get("CASE", [])
+    if len(icases) != ri.distinct or not icases:
+        raise vlib.ToolError("MC_X04I emitted %d cases for %d states" % (len(icases), ri.distinct))
+    icpath = os.path.join(vlib.BUILD, "x04i_cases.ndjson")
+    iopath = os.path.join(vlib.BUILD, "x04i_out.ndjson")
+    vlib.write_ndjson(icpath, icases)
+    vlib.harness(["replay", "x04i", icpath, iopath])
+    for c, o in zip(icases, vlib.read_ndjson(iopath)):
+        for m in o["mismatches"]:
+            div.append(m)
     os.makedirs(os.path.join(vlib.BUILD, "extended"), exist_ok=True)
     per_f = {}
     for c in cases:
         per_f["ok" if c["ok"] else "error"] = per_f.get("ok" if c["ok"] else "error", 0) + 1
-    json.dump({"id": "X04", "states": r.distinct, "cases_per_function": per_f, "divergences": div[:50], "n_divergences": len(div)},
+    json.dump({"id": "X04", "states": r.distinct, "inline_calls": len(icases), "cases_per_function": per_f, "divergences": div[:50], "n_divergences": len(div)},
               open(os.path.join(vlib.BUILD, "extended", "X04.json"), "w"), indent=1)
     for m in div[:12]:
         print("DIVERGENCE extended=X04 %s inputs %s: %s" % (json.dumps(m["src"]), json.dumps(m["inputs"]), "; ".join(m["obs"])))
-    print("X04: %d calls, %d divergences" % (len(cases), len(div)))
+    print("X04: %d evaluate calls, %d evaluate_inline_expressions calls, %d divergences" % (len(cases), len(icases), len(div)))
     return 1 if div else 0
 
 
